@@ -564,7 +564,16 @@ pub fn make_slave(p: &PerCfg) -> RefSlave {
             c
         })
     };
-    RefSlave::new(p.addr, ident, cfg, p.in_len, p.out_len)
+    let mut s = RefSlave::new(p.addr, ident, cfg, p.in_len, p.out_len);
+    // some slaves always have extended diagnostics to report (Ext_Diag set in every diagnostics reply):
+    // nothing, 3, 7 or 12 bytes by address - more than a small diagnostics buffer of the master holds
+    s.ext_diag = match p.addr % 4 {
+        0 => vec![],
+        1 => vec![0x03, 0x11, 0x22],
+        2 => vec![0x07, 1, 2, 3, 4, 5, 6],
+        _ => vec![0x04, 9, 8, 7, 0x42, 0x00, 0x81, 0x88, 0x41, 0x81, 0x05, 0xA7],
+    };
+    s
 }
 
 pub fn make_fdl(cfg: &DpCfg) -> FdlActiveStation {
